@@ -197,7 +197,13 @@ func opts() genfont.Opts {
 
 func TestC18Writers(t *testing.T) {
 	rapid.Check(t, func(t *rapid.T) {
-		c := genfont.Gen(opts()).Draw(t, "font")
+		o := opts()
+		if rapid.IntRange(0, 5).Draw(t, "bigTable") == 0 {
+			// a table of more than 128 KiB (a writer may hand large tables
+			// to the destination in pieces)
+			o.Kind, o.MinGlyphs, o.MaxGlyphs, o.BigGlyf, o.NoComposites = genfont.KindGlyf, 10, 30, true, true
+		}
+		c := genfont.Gen(o).Draw(t, "font")
 		f := c.Font
 		for _, w := range writersOf(f) {
 			var clean bytes.Buffer
